@@ -26,8 +26,8 @@ CLAIMED = {
         "DESIGN.md section 5, C01",
     ),
     'C02': (
-        "exhaustive enumeration (itertools.product) of the kind(value) x target type x embedding context matrix against a hand-written kind-compatibility table",
-        "All 20 280 cells of 39 value instances (13 kinds) x 52 target types x 10 contexts are evaluated on every run: a value whose kind the "
+        "exhaustive enumeration (itertools.product) of the kind(value) x target type x embedding context matrix (12 contexts, incl. constructor and __replace__ calls that give several fields at once) against a hand-written kind-compatibility table",
+        "All cells of 39 value instances (13 kinds) x 52 target types x 12 contexts are evaluated on every run: a value whose kind the "
         "target's family does not admit must raise ConvertError in every context; admitted cells are decided by the reference interpreter. "
         "Exhaustive over this matrix, not over all values.",
         "Trusts the kind table in pv/props/c02.py (taken from the statement and docs/index.md); bool -> number and ==-matching literal cells are unspecified.",
